@@ -6,6 +6,8 @@ One line = one call of one entry point on one input:
   ff     <b|F<pos>|o|p> <B> <allkeys T|F> <data> <tag>   BeaconConfig.from_bytes / from_file(BytesIO at pos) / from_file(open rb) / from_path
   xor    <B|O> <B> <data> <tag>                          XorEncodedFile.from_file
   mz arch stamps mmz mpe ppa  <B|O> <data> <tag>         pe.find_*(fh)
+  ppaL   <L> <B|O> <data> <tag>                          pe.find_stage_prepend_append; L = largest offset seek() accepts on the
+                                                         file system holding the temporary files (measured once per run)
   art    <B|O> <data> <tag>                              list(iter_artifactkit_payloads(fh))
   http   <data> <tag>                                    parse_raw_http
 
@@ -40,6 +42,8 @@ STREAMS = {
     "ffall": {"relevant": True, "desc": "the same with all_xor_keys=True"},
     "xor": {"relevant": True, "desc": "XorEncodedFile.from_file on BytesIO / OS file"},
     "pe": {"relevant": True, "desc": "the six pe.find_* helpers on BytesIO / OS file"},
+    "pelimit": {"relevant": True, "desc": "pe.find_stage_prepend_append with Σ SizeOfRawData around the largest offset the file "
+                                           "system of the temporary file accepts (measured at start-up)"},
     "art": {"relevant": True, "desc": "iter_artifactkit_payloads run to completion on BytesIO / OS file"},
     "http": {"relevant": True, "desc": "parse_raw_http"},
 }
@@ -116,6 +120,91 @@ def show_http(m) -> str:
     if isinstance(m, c2.HttpResponse):
         return f"ok response {int(m.status)} {len(m.headers)} {len(m.body)}"
     raise TypeError("parse_raw_http returned " + type(m).__name__)
+
+
+# --------------------------------------------------------------------------------------------------
+# known finding: find_stage_prepend_append lets OSError escape on a real file
+# --------------------------------------------------------------------------------------------------
+
+FINDING_PPA = "C08-ppa-seek-beyond-fs-limit"
+
+
+def _finding_listed(fid: str) -> bool:
+    try:
+        with open(os.path.join(os.path.dirname(__file__), "..", "..", "known_findings.json")) as fh:
+            kf = json.load(fh)
+        return any(k.get("id") == fid and k.get("status") == "known" for k in kf.get("findings", []))
+    except (OSError, ValueError):
+        return False
+
+
+_PPA_LISTED = _finding_listed(FINDING_PPA)
+_FS_LIMIT = None
+
+
+def fs_limit() -> int:
+    """largest offset `seek` accepts on a real file in /tmp/C08 (ext4, 4 KiB blocks: 2**44 - 4096; tmpfs/xfs: 2**63 - 1)"""
+    global _FS_LIMIT
+    if _FS_LIMIT is None:
+        path = _tmpfile(b"abc")
+        try:
+            with open(path, "rb") as fh:
+                def ok(off):
+                    try:
+                        fh.seek(off)
+                        return True
+                    except (OSError, OverflowError, ValueError):
+                        return False
+                lo, hi = 0, 2 ** 63 - 1
+                if ok(hi):
+                    lo = hi
+                while lo + 1 < hi:
+                    mid = (lo + hi) // 2
+                    if ok(mid):
+                        lo = mid
+                    else:
+                        hi = mid
+                _FS_LIMIT = lo
+        finally:
+            os.unlink(path)
+    return _FS_LIMIT
+
+
+def ppa_seek_target(data: bytes):
+    """independent computation (struct only) of the argument of the final `fh.seek(mz_offset + size)` of
+    find_stage_prepend_append, or None when the function returns before it"""
+    mz = None
+    for off in range(1024):
+        if H18.candidate(data, off, 1024) in (AMD64, I386):
+            mz = off
+            break
+    if mz is None:
+        return None
+    e = int.from_bytes(data[mz + 60:mz + 64], "little", signed=True)
+    fh = mz + e + 4
+    if fh < 0 or fh + 20 > len(data):
+        return None
+    machine, nsec = struct.unpack_from("<HH", data, fh)
+    if machine not in (AMD64, I386):
+        return None
+    osz = 240 if machine == AMD64 else 224
+    opt = fh + 20
+    if opt + osz + 40 * nsec > len(data):
+        return None
+    size = struct.unpack_from("<I", data, opt + 60)[0]
+    for q in range(nsec):
+        size += struct.unpack_from("<I", data, opt + osz + 40 * q + 16)[0]
+    return mz + size
+
+
+def in_ppa_finding_class(stream, line) -> bool:
+    if stream != "pelimit":
+        return False
+    w = line.split(" ")
+    if w[0] != "ppaL" or w[2] != "O":
+        return False
+    t = ppa_seek_target(C.unhx(w[3]))
+    return t is not None and t > int(w[1])
 
 
 # --------------------------------------------------------------------------------------------------
@@ -217,6 +306,13 @@ def _impl(stream, line):
         return _with_file(kind, data, lambda fh: show_hits(list(artifact.iter_artifactkit_payloads(fh))))
     if op == "http":
         return show_http(c2.parse_raw_http(C.unhx(w[1])))
+    if op == "ppaL":
+        kind, data = w[2], C.unhx(w[3])
+
+        def run_ppa(fh):
+            p, a = pe.find_stage_prepend_append(fh)
+            return f"ok {ob(p)} {ob(a)}"
+        return _with_file(kind, data, run_ppa)
     if op in PE_OPS:
         kind, data = w[1], C.unhx(w[2])
 
@@ -254,6 +350,10 @@ def oracle(stream, line, out):
     """outcome ∈ {documented result kind, ValueError where ValueError is documented}; plus the documented not-found value for
     inputs that cannot contain what is searched (decided from the input length alone)."""
     if out.startswith("exc "):
+        if out == "exc OSError" and in_ppa_finding_class(stream, line):
+            # known finding C08-ppa-seek-beyond-fs-limit (the model says OSError too): a violation of the property; until the
+            # finding is listed in known_findings.json the class is compared model-vs-implementation only
+            return False if _PPA_LISTED else None
         if out != "exc ValueError":
             return False                     # EOFError / OSError / IndexError / OverflowError / Timeout / …
         return stream in ("ff", "ffall", "xor", "http")   # pe.find_* and the ArtifactKit scan document no exception at all
@@ -266,9 +366,9 @@ def oracle(stream, line, out):
         return n >= 7
     if stream == "xor":
         return n >= 8 + 64 + 20              # nonce + size + DOS header + file header
-    if stream == "pe" and n < 64 + 20:       # no IMAGE_DOS_HEADER + IMAGE_FILE_HEADER fits: documented not-found values
+    if stream in ("pe", "pelimit") and n < 64 + 20:       # no IMAGE_DOS_HEADER + IMAGE_FILE_HEADER fits: documented not-found values
         return out == {"mz": "ok none", "arch": "ok none", "stamps": "ok none none", "mmz": "ok none", "mpe": "ok none",
-                       "ppa": "ok none none"}[op]
+                       "ppa": "ok none none", "ppaL": "ok none none"}[op]
     if stream == "art" and n < 4:
         return out == "ok 0 0"
     return True
@@ -279,6 +379,8 @@ def nontrivial(stream, line, out):
     derived = not (tag.startswith("short") or tag.startswith("rand") or tag.startswith("run"))
     if out.startswith("exc "):
         return derived
+    if stream == "pelimit":
+        return True
     if stream == "pe":
         return derived or "none" not in out.split(" ")[1:2]
     if stream == "art":
@@ -291,6 +393,8 @@ def shrink(stream, line):
 
 
 def known(stream, line, known_list):
+    if any(k.get("id") == FINDING_PPA for k in known_list) and in_ppa_finding_class(stream, line):
+        return FINDING_PPA
     return None
 
 
@@ -439,6 +543,15 @@ def gen(tier, rng, shard, nshards):
         k += 1
         return (k % nshards) == shard
 
+    fam = 0
+
+    def sync():
+        """every generator family restarts the shard counter at a fixed value: which shard takes the j-th item of a family does
+        not depend on how many items the (seeded, per-shard) random choices produced in earlier families"""
+        nonlocal k, fam
+        fam += 1
+        k = fam * 5
+
     def fk(i):
         """file kind rotation for the ff entry points"""
         return ("b", "o", "F0", "p")[i % 4]
@@ -504,7 +617,7 @@ def gen(tier, rng, shard, nshards):
         yield from all_entries(b"\xff" * n, "runff", i, pe_ops=("mz", "stamps"))
         yield from all_entries(C.rbytes(rng, 1030) + b"\xff" * (n * 50), "runff-late", i, pe_ops=("mz",))
     # random, up to 64 KiB
-    for j in range((60 if thorough else 8) // 1):
+    for j in range(200 if thorough else 8):
         i += 1
         if not mine():
             continue
@@ -519,6 +632,7 @@ def gen(tier, rng, shard, nshards):
         """the payload itself, every truncation, flips; `entries(data, tag, i)` chooses the entry points"""
         nonlocal i
         entries = entries or (lambda d, t, ii: all_entries(d, t, ii))
+        sync()
         i += 1
         if mine():
             yield from entries(data, tag + "-valid", i)
@@ -547,68 +661,72 @@ def gen(tier, rng, shard, nshards):
         return all_entries(d, t, ii, ff=False, xor=False, art=False, rot=(0 if t.endswith("-valid") else 2))
 
     payloads = {}
-    # raw configuration block, small (every truncation) — alone, inside filler, at the end of the file
-    for key in keys:
-        blk = raw_block(rng, key, rng.choice([64, 200]))
-        pre = bytes(calm(bytearray(C.rbytes(rng, rng.choice([0, 1, 30])))))
-        data = pre + blk + C.rbytes(rng, rng.choice([0, 9]))
-        payloads["raw" + key.hex()] = data
-        yield from corruptions(data, "raw", marks=(len(pre), len(pre) + 7), nflip=(600 if thorough else 60), entries=ff_only)
-    # full 4096-byte block behind 8 KiB of filler (block straddles the read buffer)
-    for key in keys[: (3 if thorough else 1)]:
-        blk = raw_block(rng, key, 4096, n=12)
-        off = rng.choice([8185, 8190, 8192, 100])
-        data = bytes(calm(bytearray(rng.randbytes(off)))) + blk
-        yield from corruptions(data, "rawbig", marks=(off, off + 7, 8192), nflip=(300 if thorough else 30), entries=ff_only)
-    # PE image with a block planted behind it
-    for arch in ("x86", "x64"):
-        img, data, off = pe_with_block(rng, rng.choice(keys), arch=arch)
-        payloads["pe" + arch] = data
-        marks = tuple(img.boundaries()) + (off, off + 7)
-        yield from corruptions(data, "pe", marks=marks, nflip=(2000 if thorough else 150),
-                               entries=lambda d, t, ii: all_entries(d, t, ii, xor=(ii % 3 == 0), art=(ii % 7 == 0),
-                                                                    rot=(0 if t.endswith("-valid") else 3)))
-        # the same image behind a prefix (mz_offset > 0): helpers only
-        pre = bytes(calm(bytearray(C.rbytes(rng, rng.choice([1, 10, 1000, 1023])))))
-        yield from corruptions(pre + data, "pepre", marks=tuple(len(pre) + m for m in marks), nflip=(500 if thorough else 40), entries=pe_only,
-                               stride=(1 if thorough else 3))
-    # XorEncoded stage of a PE image with a block
-    for variant in (("xs", False, True), ("xm", True, False), ("xsm", True, True)):
-        img, plain, off = pe_with_block(rng, rng.choice(keys), blocksize=64)
-        stage = xor_stage(rng, plain, stublen=rng.choice([0, 5, 64, 300]), marker=variant[1], good_size=variant[2])
-        stage = bytes(stage)
-        payloads[variant[0]] = stage
-        stub = len(stage) - len(plain) - 8
-        marks = (stub, stub + 4, stub + 8, stub + 8 + 64, stub + 8 + off)
-        yield from corruptions(stage, variant[0], marks=marks, nflip=(2000 if thorough else 150), entries=ff_xor)
-    # Guardrails-protected payloads (each recovery runs find_xor_key_candidates: ~0.3 s): strided truncation, few flips
-    for gi in range(3 if thorough else 1):
-        payload, aoff = guard_payload(rng, terminate=(gi != 1))
-        payloads[f"guard{gi}"] = payload
-        marks = (aoff, aoff + 6138, aoff + 6144, aoff + 6150, aoff + 6156, aoff + 6144 + 2048)
-        cuts = sorted({c for c in truncations(payload, step1_upto=0, extra=marks)})
-        if not thorough:
-            cuts = [c for j, c in enumerate(cuts) if j % 6 == 0 or any(abs(c - m) <= 1 for m in marks)]
-        i += 1
-        if mine():
-            yield from all_entries(payload, "guard-valid", i, pe_ops=("stamps", "arch"), both_kinds=True)
-        for cut in cuts:
+    for rep in range(3 if thorough else 1):
+        # raw configuration block, small (every truncation) — alone, inside filler, at the end of the file
+        for key in keys:
+            blk = raw_block(rng, key, rng.choice([64, 200]))
+            pre = bytes(calm(bytearray(C.rbytes(rng, rng.choice([0, 1, 30])))))
+            data = pre + blk + C.rbytes(rng, rng.choice([0, 9]))
+            payloads[f"raw{key.hex()}{rep}"] = data
+            yield from corruptions(data, "raw", marks=(len(pre), len(pre) + 7), nflip=(600 if thorough else 60), entries=ff_only)
+        # full 4096-byte block behind 8 KiB of filler (block straddles the read buffer)
+        for key in keys[: (3 if thorough else 1)]:
+            blk = raw_block(rng, key, 4096, n=12)
+            off = rng.choice([8185, 8190, 8192, 100])
+            data = bytes(calm(bytearray(rng.randbytes(off)))) + blk
+            yield from corruptions(data, "rawbig", marks=(off, off + 7, 8192), nflip=(300 if thorough else 30), entries=ff_only)
+        # PE image with a block planted behind it
+        for arch in ("x86", "x64"):
+            img, data, off = pe_with_block(rng, rng.choice(keys), arch=arch)
+            payloads[f"pe{arch}{rep}"] = data
+            marks = tuple(img.boundaries()) + (off, off + 7)
+            yield from corruptions(data, "pe", marks=marks, nflip=(2000 if thorough else 150),
+                                   entries=lambda d, t, ii: all_entries(d, t, ii, xor=(ii % 3 == 0), art=(ii % 7 == 0),
+                                                                        rot=(0 if t.endswith("-valid") else 3)))
+            # the same image behind a prefix (mz_offset > 0): helpers only
+            pre = bytes(calm(bytearray(C.rbytes(rng, rng.choice([1, 10, 1000, 1023])))))
+            yield from corruptions(pre + data, "pepre", marks=tuple(len(pre) + m for m in marks), nflip=(500 if thorough else 40), entries=pe_only,
+                                   stride=(1 if thorough else 3))
+        # XorEncoded stage of a PE image with a block
+        for variant in (("xs", False, True), ("xm", True, False), ("xsm", True, True)):
+            img, plain, off = pe_with_block(rng, rng.choice(keys), blocksize=64)
+            stage = xor_stage(rng, plain, stublen=rng.choice([0, 5, 64, 300]), marker=variant[1], good_size=variant[2])
+            stage = bytes(stage)
+            payloads[f"{variant[0]}{rep}"] = stage
+            stub = len(stage) - len(plain) - 8
+            marks = (stub, stub + 4, stub + 8, stub + 8 + 64, stub + 8 + off)
+            yield from corruptions(stage, variant[0], marks=marks, nflip=(2000 if thorough else 150), entries=ff_xor)
+        # Guardrails-protected payloads (each recovery runs find_xor_key_candidates: ~0.3 s): strided truncation, few flips
+        for gi in range(3 if thorough else 1):
+            payload, aoff = guard_payload(rng, terminate=(gi != 1))
+            payloads[f"guard{gi}{rep}"] = payload
+            marks = (aoff, aoff + 6138, aoff + 6144, aoff + 6150, aoff + 6156, aoff + 6144 + 2048)
+            sync()
+            cuts = sorted({c for c in truncations(payload, step1_upto=0, extra=marks)})
+            if not thorough:
+                cuts = [c for j, c in enumerate(cuts) if j % 6 == 0 or any(abs(c - m) <= 1 for m in marks)]
             i += 1
-            if not mine():
-                continue
-            yield from ff_only(payload[:cut], "guard-trunc", i, ak=False)
-        for d in flips(rng, payload, 60 if thorough else 8):
+            if mine():
+                yield from all_entries(payload, "guard-valid", i, pe_ops=("stamps", "arch"), both_kinds=True)
+            for cut in cuts:
+                i += 1
+                if not mine():
+                    continue
+                yield from ff_only(payload[:cut], "guard-trunc", i, ak=False)
+            for d in flips(rng, payload, 60 if thorough else 8):
+                i += 1
+                if not mine():
+                    continue
+                yield from ff_only(d, "guard-flip", i, ak=False)
+            # XorEncoded container of the protected payload
+            sync()
             i += 1
-            if not mine():
-                continue
-            yield from ff_only(d, "guard-flip", i, ak=False)
-        # XorEncoded container of the protected payload
-        i += 1
-        if mine():
-            enc = H17.xorencode(payload, C.rbytes(rng, 4))
-            yield from all_entries(bytes(calm(bytearray(C.rbytes(rng, 5)))) + enc, "guard-xor", i, pe_ops=(), art=False, ak=False)
+            if mine():
+                enc = H17.xorencode(payload, C.rbytes(rng, 4))
+                yield from all_entries(bytes(calm(bytearray(C.rbytes(rng, 5)))) + enc, "guard-xor", i, pe_ops=(), art=False, ak=False)
     # splices of two payloads
     names = sorted(payloads)
+    sync()
     for j in range(200 if thorough else 24):
         i += 1
         if not mine():
@@ -676,6 +794,7 @@ def gen(tier, rng, shard, nshards):
                 yield "pe-many-sections", bytes(many)
                 yield "pe-many-sections-cut", bytes(many)[: sec0 + 40 * 77 + 13]
 
+    sync()
     for name, d in crafted_pe():
         i += 1
         if not mine():
@@ -687,6 +806,45 @@ def gen(tier, rng, shard, nshards):
             if len(d) < 4000 and d[:2] == b"MZ":
                 st = xor_stage(rng, bytes(calm(bytearray(d + blk))), stublen=rng.choice([0, 5]), marker=False, good_size=True)
                 yield from all_entries(bytes(st), name + "-xor", i, pe_ops=(), art=False, ak=False)
+
+    # find_stage_prepend_append: Σ SizeOfRawData around the largest offset the file system accepts (known finding
+    # C08-ppa-seek-beyond-fs-limit on OS files; BytesIO must be unaffected)
+    L = fs_limit()
+    sync()
+    if L < 2 ** 48:
+        for arch in ("x86", "x64"):
+            for name, total, last, pre in (
+                ("at-limit", L, None, 0),
+                ("limit+1", L + 1, None, 0),
+                ("limit-prefix", L, None, 3),
+                ("limit+1-prefix", L + 1, None, 3),
+                ("far", L + 300 * 0xFFFFFFFF, None, 0),
+                ("far-cut", L + 300 * 0xFFFFFFFF, 17, 0),
+            ):
+                i += 1
+                if not mine():
+                    continue
+                nsec, soh = divmod(total - pre, 0xFFFFFFFF)      # mz_offset + SizeOfHeaders + nsec * 0xFFFFFFFF == total
+                if nsec > 65535:
+                    continue
+                machine, osz = (AMD64, 240) if arch == "x64" else (I386, 224)
+                dos = b"MZ" + bytes(58) + struct.pack("<i", 64)
+                fhdr = struct.pack("<HHIIIHH", machine, nsec, 0, 0, 0, osz, 0x2102)
+                opt = bytearray(osz)
+                opt[60:64] = struct.pack("<I", soh)
+                sec = bytes(16) + struct.pack("<I", 0xFFFFFFFF) + bytes(20)
+                d = b"\x90" * pre + dos + b"PE\0\0" + fhdr + bytes(opt) + sec * nsec
+                if last is not None:
+                    d = d[:-last]
+                for kd in ("B", "O"):
+                    yield "pelimit", f"ppaL {L} {kd} {C.hx(d)} ppa-{name}-{arch}"
+    # the same op on ordinary inputs (limit irrelevant)
+    sync()
+    for nm, d in sorted(payloads.items()):
+        i += 1
+        if not mine():
+            continue
+        yield "pelimit", f"ppaL {L} {'BO'[i % 2]} {C.hx(d)} ppa-{nm}"
 
     # settings: length beyond the data, TYPE/length combinations, the 128-byte User-Agent at the end of the data
     def crafted_settings():
@@ -710,6 +868,7 @@ def gen(tier, rng, shard, nshards):
         yield "set-header-only", HEADER
         yield "set-header-plus1", HEADER + b"\x08"
 
+    sync()
     for name, body in crafted_settings():
         for key in keys:
             for pre in (b"", b"\x90" * 5):
@@ -730,6 +889,7 @@ def gen(tier, rng, shard, nshards):
             for a in range(0, 8):
                 for b in range(a + 1, 9):
                     yield f"hdrfrag-{key.hex()}-{a}-{b}", h[a:b], key
+    sync()
     for name, frag, key in header_fragments():
         fill = bytes([0x41 ^ key[0]])
         placements = [("start", frag, True), ("start+", frag + fill * 9, False), ("end", fill * 9 + frag, False),
@@ -751,8 +911,7 @@ def gen(tier, rng, shard, nshards):
             mk = H17.fake_marker(rng)
             end = min(total, off + len(mk))
             buf[off:end] = mk[: end - off]
-            if H17.clean(bytes(buf)):
-                yield f"guard-marker-{off}", bytes(buf)
+            yield f"guard-marker-{off}", bytes(buf)
         # marker at every offset of a short file
         for n in (12, 13, 40):
             buf = bytearray(calm(bytearray(C.rbytes(rng, n))))
@@ -776,10 +935,9 @@ def gen(tier, rng, shard, nshards):
             gc = (gc + bytes(2048))[:2048]
             ar = H17.protect(cfg, key, gc)
             for cut in (len(ar), 6144 + 6, 6144 + 7, 6144 + 12, 6144 + 100):
-                payload = ar[:cut]
-                if H17.clean(payload):
-                    yield f"guard-{name}-{cut}", payload
+                yield f"guard-{name}-{cut}", ar[:cut]
 
+    sync()
     for name, d in crafted_guard():
         i += 1
         if not mine():
@@ -818,6 +976,7 @@ def gen(tier, rng, shard, nshards):
             p2[60:64] = struct.pack("<i", lf)
             yield f"xor-view-lfanew{lf}", bytes(xor_stage(rng, bytes(p2), stublen=5, marker=True, good_size=True))
 
+    sync()
     for name, d in crafted_xor():
         i += 1
         if not mine():
@@ -842,6 +1001,7 @@ def gen(tier, rng, shard, nshards):
         yield "art-dense", bytes(b)
         yield "art-self", struct.pack("<I", 16) * 40
 
+    sync()
     for name, d in crafted_art():
         i += 1
         if not mine():
@@ -849,11 +1009,13 @@ def gen(tier, rng, shard, nshards):
         hx = C.hx(d)
         for kd in ("B", "O"):
             yield "art", f"art {kd} {hx} {name}"
+    sync()
     for nm, d in sorted(payloads.items()):
         i += 1
         if not mine():
             continue
         yield "art", f"art {'BO'[i % 2]} {C.hx(d)} art-{nm}"
+    sync()
     for j in range(400 if thorough else 40):
         i += 1
         if not mine():
@@ -864,6 +1026,7 @@ def gen(tier, rng, shard, nshards):
         yield "art", f"art {'BO'[i % 2]} {C.hx(d)} art-rand"
 
     # raw HTTP: compact malformed stream + truncations/flips of two valid messages
+    sync()
     for d in http_samples(rng):
         i += 1
         if not mine():
@@ -872,6 +1035,7 @@ def gen(tier, rng, shard, nshards):
     valid = [b"GET /path/x.js?id=1&u=%41%ff HTTP/1.1\r\nHost: example.org\r\nCookie: a=b\r\n\r\nBODY",
              b"HTTP/1.1 404 Not Found\r\nServer: x\r\nContent-Length: 3\r\n\r\nabc"]
     for v in valid:
+        sync()
         for cut in range(len(v) + 1):
             i += 1
             if not mine():
@@ -882,6 +1046,7 @@ def gen(tier, rng, shard, nshards):
             if not mine():
                 continue
             yield "http", f"http {C.hx(d)} http-flip"
+    sync()
     for j in range(3000 if thorough else 300):
         i += 1
         if not mine():
